@@ -607,6 +607,16 @@ class C20(Check):
             mon.append('the Lean encoder lays the same tokens out differently from the reference compressor (theorem not about this image)')
         elif enc[2].replace('-', '') != x.hex():
             mon.append('the tokens of the reference compressor do not stand for the original data in the Lean model')
+        # the model's own (certifying) compressor, theorem C20_lzss_compress: pyctr must invert it as well
+        lc = drv.ask(sexp(['lzss-compress', x, pad]))
+        if lc.startswith('ok '):
+            limg = bytes.fromhex(lc[3:].replace('-', ''))
+            self.lz_same = getattr(self, 'lz_same', 0) + int(limg == comp)
+            try:
+                if decompress_code(limg) != x:
+                    mon.append(f'decompress(compress(x)) != x for the image of the Lean reference compressor (|x|={len(x)})')
+            except Exception as e:      # noqa
+                mon.append(f'decompress raised {exc_name(e)} on the image of the Lean reference compressor')
         try:
             d = decompress_code(comp)
             real = 'ok ' + (d.hex() or '-')
